@@ -483,7 +483,7 @@ def rule_g(ctx, ix):
 def _loaded_shape(e, owner, depth=0, scope=None):
     """Layout of a value a loader builds: O = an object restored by context.object, V = a plain value, [..] = a fixed sequence,
     ['*', s] = any number of s, {'k': s, 'v': s} = a mapping, ['|', a, b] = one of two layouts, U = unknown element."""
-    if depth > 8 or e is None:
+    if depth > 20 or e is None:
         return 'V'
     if isinstance(e, ast.Name) and scope is not None:
         defs = [st for st in ast.walk(scope) if isinstance(st, ast.Assign) and len(st.targets) == 1 and isinstance(st.targets[0], ast.Name)
@@ -565,9 +565,11 @@ def rule_h(ctx, ix, reg):
             ld = reg.loaders[t][v]
             if ld.cls is not None:
                 continue
+            # the object being restored: what the loader yields / returns (whatever the local is called)
+            objs = {x.value.id for x in ast.walk(ld.node) if isinstance(x, (ast.Yield, ast.Return)) and isinstance(x.value, ast.Name)}
             for st in ast.walk(ld.node):
                 if isinstance(st, ast.Assign) and len(st.targets) == 1 and isinstance(st.targets[0], ast.Attribute) and \
-                        isinstance(st.targets[0].value, ast.Name) and st.targets[0].value.id in ('result', 'obj', 'data', 'self_'):
+                        isinstance(st.targets[0].value, ast.Name) and st.targets[0].value.id in objs:
                     stores.setdefault(st.targets[0].attr, {})[v] = (st, ld)
         for fld, byv in sorted(stores.items()):
             if len(byv) < 2:
